@@ -664,6 +664,14 @@ func (ex *Exec) atLoopHead(fr *Frame, b *ssa.BasicBlock, prev *ssa.BasicBlock, s
 		env := ex.loopEnv(fr, b, st, ex.entry)
 		env.loopEntry = ctx.headSt
 		evalInv(env, "preserve")
+		env.prevSt, env.prevVars = ctx.iterSt, ctx.iterVars
+		for _, c := range li.spec.Steps {
+			g, err := env.EvalBool(c.Expr)
+			if err != nil {
+				panic(abortAll{fmt.Sprintf("%s step %q: %v", lname, c.Text, err)})
+			}
+			ex.addObl(st, "inv", fmt.Sprintf("%s:step:%s", lname, c.Label), g, c.Text)
+		}
 		if li.spec.Decreases != nil {
 			m1 := env.eval(li.spec.Decreases.Expr)
 			m1t := SignExt(m1.V.(*Term), 64)
@@ -707,6 +715,13 @@ func (ex *Exec) atLoopHead(fr *Frame, b *ssa.BasicBlock, prev *ssa.BasicBlock, s
 			nm = phi.Name()
 		}
 		fr.regs[phi] = st.SymValue(phi.Type(), lname+"."+nm, *st.nextRg)
+		if phi.Comment != "" {
+			// the loop-carried value is the variable's current value for clauses of inner loops
+			if fr.names == nil {
+				fr.names = map[string]nameRef{}
+			}
+			fr.names[phi.Comment] = nameRef{v: phi}
+		}
 	}
 	if len(li.spec.Modifies) > 0 {
 		ct := ex.eng.contractFor(fr.fn)
@@ -723,6 +738,13 @@ func (ex *Exec) atLoopHead(fr *Frame, b *ssa.BasicBlock, prev *ssa.BasicBlock, s
 		st.AssumeCond(g)
 	}
 	ctx := &loopCtx{li: li, headSt: headSt, dropped: dropped, body: loopBody(b)}
+	if len(li.spec.Steps) > 0 {
+		ctx.iterSt = st.Clone()
+		ctx.iterVars = map[string]TV{}
+		for k, v := range env2.vars {
+			ctx.iterVars[k] = v
+		}
+	}
 	if li.spec.Decreases != nil {
 		m0 := env2.eval(li.spec.Decreases.Expr)
 		if m0.U != nil {
